@@ -3,9 +3,11 @@ import H4.Driver.Util
 namespace H4.Driver
 open H4.GRegion H4.Interlace
 
-/-- state of engine `gr`: one raster image (none before `create`) and its number-type code -/
+/-- state of engine `gr`: one raster image (none before `create`) – its open RI ids live in `ri.bk.ids` – and the
+    handle the following calls go through -/
 structure GrState where
   ri : Option RI := none
+  cur : Nat := 0
 
 /-- `start`/`stride`/`count` arrive as C `int32`s; a negative start is `DFE_BADDIM`, negative stride/count too -/
 def parseReq (a : List String) : Option (Option Req) :=
@@ -34,24 +36,56 @@ def ilOfInt (s : String) : Option (Option Il) :=
     * `wlut ncomp nt il n <hex>`      => ok | fail
     * `reqlutil il`                   => ok | fail
     * `rlut`                          => <hex of the 768-byte buffer, pre-set to 5a>
-    * `lutinfo`                       => ncomp,nt,il,nentries -/
+    * `lutinfo`                       => ncomp,nt,il,nentries
+    * `select k`                      => ok               (`GRselect` into handle `k`; `create`/`reopen` open handle 0)
+    * `endaccess k`                   => ok | fail        (`GRendaccess`)
+    * `use k`                         => ok               (the calls that follow go through handle `k`;
+                                                            through a handle that is not open every call is `fail`) -/
 def stepGr (st : GrState) (args : List String) : GrState × String :=
   let v := Variant.current
+  -- calls that take an RI id: `HAatom_object(riid) == NULL` ⇒ FAIL when the handle is not open
+  let viaId := match args with
+    | "create" :: _ | "select" :: _ | "endaccess" :: _ | "use" :: _ | "reopen" :: _ | "raw" :: _ => false
+    | _ => true
+  if viaId && (st.ri.elim false fun ri => !ri.bk.ids.contains st.cur) then (st, "fail") else
   match args, st.ri with
+  | ["select", k], some ri =>
+    match parseNat k with
+    | some k =>
+      match ri.bk.select k with
+      | some bk => ({ st with ri := some { ri with bk := bk } }, "ok")
+      | none => (st, "bad-op")
+    | none => (st, "bad-op")
+  | ["endaccess", k], some ri =>
+    match parseNat k with
+    | some k =>
+      match ri.bk.endaccess k with
+      | some bk => ({ st with ri := some { ri with bk := bk } }, "ok")
+      | none => (st, "fail")
+    | none => (st, "bad-op")
+  | ["use", k], some _ =>
+    match parseNat k with
+    | some k => ({ st with cur := k }, "ok")
+    | none => (st, "bad-op")
   | ["create", w, h, nc, nt, il], _ =>
     match parseNat w, parseNat h, parseNat nc, parseNat nt, parseNat il with
     | some w, some h, some nc, some nt, some il =>
       match H4.Conv.lookup nt, Il.ofCode il with
       | some (csz, swap), some il =>
         if w = 0 ∨ h = 0 ∨ nc = 0 then (st, "fail")
-        else ({ ri := some { W := w, H := h, ncomp := nc, nt := nt, csz := csz, swap := swap, il := il } }, "ok")
+        else
+          let ri0 : RI := { W := w, H := h, ncomp := nc, nt := nt, csz := csz, swap := swap, il := il, bk := { ids := [0] } }
+          ({ ri := some ri0, cur := 0 }, "ok")
       | _, _ => (st, "fail")
     | _, _, _, _, _ => (st, "bad-op")
   | ["setfill", hx], some ri =>
     match parseHex hx with
     | some b => ({ st with ri := some { ri with fill := some b } }, "ok")
     | none => (st, "bad-op")
-  | ["setcomp"], some _ => (st, "ok")
+  | ["setcomp"], some ri =>
+    match ri.bk.setcompress with
+    | some bk => ({ st with ri := some { ri with bk := bk } }, "ok")
+    | none => (st, "fail")
   | ["setchunk"], some ri => ({ st with ri := some (GRsetchunk ri) }, "ok")
   | ["reqil", il], some ri =>
     match ilOfInt il with
@@ -63,24 +97,27 @@ def stepGr (st : GrState) (args : List String) : GrState × String :=
     | some (some r), some data =>
       if v.rangeCheck && !(r.sane && r.inImage ri.W ri.H) then (st, "fail")   -- refused before the buffer is looked at
       else if data.length ≠ r.cx * r.cy * ri.psz then (st, "bad-op") else
-      match GRwriteimage v ri r data with
-      | some ri' => ({ st with ri := some ri' }, "ok")
-      | none => (st, "fail")
+      match GRwriteimageId v ri st.cur r data with
+      | (ri', true) => ({ st with ri := some ri' }, "ok")
+      | (ri', false) => ({ st with ri := some ri' }, "fail")
     | some none, some _ => (st, "fail")
     | _, _ => (st, "bad-op")
   | ["read", sx, sy, tx, ty, cx, cy], some ri =>
     match parseReq [sx, sy, tx, ty, cx, cy] with
     | some (some r) =>
-      match GRreadimage v ri r with
-      | some b => (st, toHex b)
-      | none => (st, "fail")
+      match GRreadimageId v ri st.cur r with
+      | (ri', some b) => ({ st with ri := some ri' }, toHex b)
+      | (ri', none) => ({ st with ri := some ri' }, "fail")
     | some none => (st, "fail")
     | none => (st, "bad-op")
   | ["raw"], some ri =>
     match ri.st.elem with
     | some e => (st, toHex e.flatten)
     | none => (st, "none")
-  | ["reopen"], some ri => ({ st with ri := some (reopen v ri) }, "ok")
+  | ["reopen"], some ri =>
+    -- every id released, `GRend`, `Hclose`, `Hopen`, `GRstart`, then `GRselect` into handle 0
+    let ri' := reopen v ri
+    ({ ri := some { ri' with bk := (ri'.bk.select 0).getD ri'.bk }, cur := 0 }, "ok")
   | ["info"], some ri => (st, s!"{ri.W},{ri.H},{ri.ncomp},{ri.nt},{ri.il.code}")
   | ["wlut", nc, nt, il, n, hx], some ri =>
     match parseNat nc, parseNat nt, parseInt il, parseNat n, parseHex hx with
